@@ -1592,6 +1592,129 @@ theorem C04_not_earlier (s : Shape) (ho : ownLeaves s = true) (hn : s.noStream =
     notEarlier ((leafParams s).any id) false h ((states s (init s) h).map (observe s)) = true :=
   notEarlier_states s ho hn h (init s) _ _ (fun hf => ffree_init s hn hf) (fun _ => calm_init s hn)
 
+/-! ### wrapping a result leaves its `failfast` alone -/
+/- assigning `failfast` twice = assigning the second value -/
+mutual
+theorem lastWrite : ∀ (s : Shape) (st : St s) (b1 b2 : Bool),
+    step s (step s st (.setFailfast b1)) (.setFailfast b2) = step s st (.setFailfast b2)
+  | .sink _, _, _, _ => rfl
+  | .tt _, _, _, _ => rfl
+  | .text _, _, _, _ => rfl
+  | .tbt, _, _, _ => rfl
+  | .etod c, (own, inner), b1, b2 => by
+      simp only [step, etodStep]
+      split
+      · simp [lastWrite c inner b1 b2]
+      · rfl
+  | .deco _, _, _, _ => rfl
+  | .tagger _ _ _, _, _, _ => rfl
+  | .tfr _, _, _, _ => rfl
+  | .e2s _, _, _, _ => rfl
+  | .multi cs, (own, inner), b1, b2 => by
+      simp only [step, multiOwn, lastWriteL cs inner b1 b2]
+theorem lastWriteL : ∀ (ss : List Shape) (st : StL ss) (b1 b2 : Bool),
+    stepL ss (stepL ss st (.setFailfast b1)) (.setFailfast b2) = stepL ss st (.setFailfast b2)
+  | [], _, _, _ => rfl
+  | s :: ss, (x, xs), b1, b2 => by simp only [stepL, lastWrite s x b1 b2, lastWriteL ss xs b1 b2]
+end
+
+def leafFFs (s : Shape) (st : St s) : List Bool := (leaves s st).map LeafSt.failfast
+def leafFFsL (ss : List Shape) (st : StL ss) : List Bool := (leavesL ss st).map LeafSt.failfast
+
+mutual
+theorem leafFFs_len : ∀ (s : Shape) (st : St s), (leafFFs s st).length = (leafParams s).length
+  | .sink _, _ => rfl
+  | .tt _, _ => rfl
+  | .text _, _ => rfl
+  | .tbt, _ => rfl
+  | .etod c, (_, inner) => leafFFs_len c inner
+  | .deco c, st => leafFFs_len c st
+  | .tagger _ _ c, st => leafFFs_len c st
+  | .tfr c, (_, inner) => leafFFs_len c inner
+  | .e2s c, (_, inner) => leafFFs_len c inner
+  | .multi cs, (_, inner) => leafFFsL_len cs inner
+theorem leafFFsL_len : ∀ (ss : List Shape) (st : StL ss), (leafFFsL ss st).length = (leafParamsL ss).length
+  | [], _ => rfl
+  | s :: ss, (x, xs) => by
+      have a := leafFFs_len s x
+      have b := leafFFsL_len ss xs
+      simp only [leafFFs, leafFFsL, leavesL, leafParamsL, List.map_append, List.length_append] at a b ⊢
+      rw [a, b]
+end
+
+/- assigning `b` where every leaf it reaches already has `b`: no leaf changes; and it reads back as `b` -/
+mutual
+theorem setSame : ∀ (s : Shape), s.wf = true → ownLeaves s = true → s.noStream = true → ∀ (st : St s) (b : Bool),
+    leafFFs s st = leafParams s → (ffReach s).all (· == b) = true →
+    leafFFs s (step s st (.setFailfast b)) = leafParams s ∧
+    ((caps s).failfast = true → failfastOf s (step s st (.setFailfast b)) = b)
+  | .sink _, _, ho, _, _, _, _, _ => by simp [ownLeaves] at ho
+  | .tbt, _, ho, _, _, _, _, _ => by simp [ownLeaves] at ho
+  | .tt ff, _, _, _, st, b, hl, hr => by
+      simp only [ffReach, List.all_cons, List.all_nil, Bool.and_true, beq_iff_eq] at hr
+      subst hr
+      exact ⟨by simp [leafFFs, leaves, step, ttStep, LeafSt.failfast, leafParams, Call.logged],
+             fun _ => by simp [failfastOf, step, ttStep, Call.logged]⟩
+  | .text ff, _, _, _, st, b, hl, hr => by
+      simp only [ffReach, List.all_cons, List.all_nil, Bool.and_true, beq_iff_eq] at hr
+      subst hr
+      exact ⟨by simp [leafFFs, leaves, step, textStep, ttStep, LeafSt.failfast, leafParams, Call.logged],
+             fun _ => by simp [failfastOf, step, textStep, ttStep, Call.logged]⟩
+  | .etod c, hw, ho, hn, (own, inner), b, hl, hr => by
+      have ho' : ownLeaves c = true := by simpa [ownLeaves] using ho
+      have hn' : c.noStream = true := by simpa [Shape.noStream] using hn
+      have hw' : c.wf = true := by cases c <;> simp_all [Shape.wf, ownLeaves]
+      by_cases hc : (caps c).failfast = true
+      · have hr' : (ffReach c).all (· == b) = true := by simpa [ffReach, hc] using hr
+        obtain ⟨h1, h2⟩ := setSame c hw' ho' hn' inner b hl hr'
+        refine ⟨?_, fun _ => ?_⟩
+        · simpa [leafFFs, leaves, step, etodStep, hc, leafParams] using h1
+        · simpa [failfastOf, step, etodStep, hc] using h2 hc
+      · have hc' : (caps c).failfast = false := by simpa using hc
+        refine ⟨?_, fun _ => ?_⟩
+        · simpa [leafFFs, leaves, step, etodStep, hc', leafParams] using hl
+        · simp [failfastOf, step, etodStep, hc']
+  | .deco c, _, _, _, st, b, hl, _ => ⟨hl, fun h => by simp [caps] at h⟩
+  | .tagger _ _ c, _, _, _, st, b, hl, _ => ⟨hl, fun h => by simp [caps] at h⟩
+  | .tfr c, _, _, _, (own, inner), b, hl, _ =>
+      ⟨hl, fun _ => by simp [failfastOf, step, tfrStep, ttStep, Call.logged]⟩
+  | .e2s _, _, _, hn, _, _, _, _ => by simp [Shape.noStream] at hn
+  | .multi cs, hw, ho, hn, (own, inner), b, hl, hr => by
+      have ho' : ownLeavesL cs = true := by simpa [ownLeaves] using ho
+      have hn' : Shape.noStreamL cs = true := by simpa [Shape.noStream] using hn
+      have hw' : Shape.wfL cs = true ∧ cs ≠ [] := by
+        cases cs with
+        | nil => simp [Shape.wf] at hw
+        | cons d ds => exact ⟨by simpa [Shape.wf] using hw, by simp⟩
+      obtain ⟨h1, h2⟩ := setSameL cs hw'.1 ho' hn' inner b hl (by simpa [ffReach] using hr)
+      refine ⟨by simpa [leafFFs, leafFFsL, leaves, step, multiOwn, leafParams] using h1, fun _ => ?_⟩
+      simp only [failfastOf, step, multiOwn]
+      exact h2 hw'.2
+theorem setSameL : ∀ (ss : List Shape), Shape.wfL ss = true → ownLeavesL ss = true → Shape.noStreamL ss = true →
+    ∀ (st : StL ss) (b : Bool), leafFFsL ss st = leafParamsL ss → (ffReachL ss).all (· == b) = true →
+    leafFFsL ss (stepL ss st (.setFailfast b)) = leafParamsL ss ∧
+    (ss ≠ [] → (failfastL ss (stepL ss st (.setFailfast b))).headD false = b)
+  | [], _, _, _, _, _, _, _ => ⟨rfl, fun h => absurd rfl h⟩
+  | s :: ss, hw, ho, hn, (x, xs), b, hl, hr => by
+      simp only [ownLeavesL, Bool.and_eq_true] at ho
+      simp only [Shape.noStreamL, Bool.and_eq_true] at hn
+      simp only [ffReachL, List.all_append, Bool.and_eq_true] at hr
+      cases s with
+      | etod e =>
+        simp only [Shape.wfL, Bool.and_eq_true] at hw
+        have hlen := leafFFs_len (.etod e) x
+        have hsplit : leafFFs (.etod e) x = leafParams (.etod e) ∧ leafFFsL ss xs = leafParamsL ss := by
+          simp only [leafFFsL, leavesL, leafParamsL, List.map_append] at hl
+          exact List.append_inj hl (by simpa [leafFFs] using hlen)
+        obtain ⟨a1, a2⟩ := setSame (.etod e) hw.1 ho.1 hn.1 x b hsplit.1 hr.1
+        obtain ⟨b1, _⟩ := setSameL ss hw.2 ho.2 hn.2 xs b hsplit.2 hr.2
+        refine ⟨?_, fun _ => ?_⟩
+        · simp only [leafFFsL, leafFFs, leavesL, stepL, leafParamsL, List.map_append] at a1 b1 ⊢
+          rw [a1, b1]
+        · simpa [failfastL, stepL] using a2 rfl
+      | _ => simp [Shape.wfL] at hw
+end
+
 /-! ## the proved clauses of the executable specification hold of the model -/
 theorem obs_map (s : Shape) (st : St s) (h : List Call) (f : Obs → α) :
     ((states s st h).map (observe s)).map f = (states s st h).map (fun x => f (observe s x)) := by
